@@ -4,6 +4,7 @@ use crate::{
     },
     SendMsgFnReturnType,
 };
+#[cfg(not(adlt_verif_sched))]
 use std::{
     borrow::Cow,
     collections::{HashMap, HashSet},
@@ -15,6 +16,17 @@ use std::{
         mpsc::{Receiver, SendError, Sender, SyncSender, TrySendError},
         RwLock,
     },
+};
+#[cfg(adlt_verif_sched)]
+use shuttle::sync::mpsc::{Receiver, SendError, Sender, SyncSender, TrySendError};
+#[cfg(adlt_verif_sched)]
+use std::{
+    borrow::Cow,
+    collections::{HashMap, HashSet},
+    io::{BufRead, BufReader, Read, Seek},
+    path::{Path, PathBuf},
+    str::FromStr,
+    sync::{atomic::AtomicU32, RwLock},
 };
 mod lowmarkbufreader;
 pub use self::lowmarkbufreader::LowMarkBufReader;
@@ -965,11 +977,22 @@ pub fn get_all_files_with_ext_in_dir(
 ///     Err(error) => println!("Failed to send value: {}", error),
 /// }
 /// ```
+/// verification hook: counts how often the channel-full branch of [sync_sender_send_delay_if_full] ran
+#[cfg(adlt_verif_sched)]
+pub static VERIF_FULL_BRANCH_TAKEN: std::sync::atomic::AtomicUsize =
+    std::sync::atomic::AtomicUsize::new(0);
+
 #[inline(always)]
 pub fn sync_sender_send_delay_if_full<T>(m: T, tx: &SyncSender<T>) -> Result<(), SendError<T>> {
     match tx.try_send(m) {
         Ok(_) => Ok(()),
         Err(TrySendError::Full(m)) => {
+            #[cfg(adlt_verif_sched)]
+            {
+                VERIF_FULL_BRANCH_TAKEN.fetch_add(1, std::sync::atomic::Ordering::Relaxed);
+                shuttle::thread::sleep(std::time::Duration::from_millis(10));
+            }
+            #[cfg(not(adlt_verif_sched))]
             std::thread::sleep(std::time::Duration::from_millis(10));
             tx.send(m)
         }
